@@ -315,7 +315,7 @@ SCC = {}
 
 
 def scc(members, reason, pre=None):
-    SCC["+".join(sorted(members))] = (reason, pre)
+    SCC["cycle-of:" + sorted(members)[0]] = (reason, pre)
 
 
 scc(["xml_dom::XmlNode::order"],
